@@ -3,6 +3,7 @@ package c02
 
 import (
 	"fmt"
+	"image"
 	"image/color"
 	"math"
 	"os"
@@ -35,6 +36,30 @@ func init() {
 			}
 			return ""
 		})
+	}
+}
+
+// image-level calls that do nothing - parallelism 0, an empty image - as the first thing a process asks of a space:
+// whatever they set up (or use up) serves every later encoder call
+func init() {
+	for i := range sp.Spaces {
+		a := &sp.Spaces[i]
+		for _, par := range []int{0, 1} {
+			par := par
+			ev.RegisterProbe(fmt.Sprintf("%s.image-calls-that-do-nothing-first(par %d)", a.Name, par), func() string {
+				ev.Guard(func() {
+					empty := image.NewRGBA64(image.Rect(0, 0, 0, 0))
+					one := image.NewRGBA64(image.Rect(0, 0, 1, 1))
+					if par == 0 {
+						a.EncodeImage(one, one, 0)
+						a.LineariseImage(one, one, 0)
+					}
+					a.EncodeImage(empty, empty, par)
+					a.LineariseImage(empty, empty, par)
+				})
+				return ""
+			})
+		}
 	}
 }
 
